@@ -3,7 +3,7 @@
 (* Trace validation of the connection limit (C17) against Server.tla.      *)
 (* Events: the driver's view of each connection (open, probe answered or   *)
 (* silent, how it was ended, starved = a freed slot was not handed on      *)
-(* within 2 s) interleaved - by one global sequence counter - with the     *)
+(* within 5 s) interleaved - by one global sequence counter - with the     *)
 (* hook events of the semaphore (acq = acquire().forget() done for that    *)
 (* peer, rel = Drop for Client added the permit back; both carry           *)
 (* available_permits()).  Every hook event is a (composition of) Server    *)
